@@ -19,6 +19,9 @@ TEXT_POOL = [
     'trailing spaces   ', '    leading', '%s %d %(x)s', '"""triple"""', "'''triple'''", '#comment', 'a' * 120,
     'path /usr/local/bin/thing', 'user@example.com', '00:00', '1/2/3', '15 Jan 1999', 'Feb 30 2021', '30 Feb 2021',
     '2021-02-30 10:00:00', 'id=7 id=12', '-' * 20, '\\', 'line with \x0c formfeed', 'NULL', 'None', 'True',
+    # tokens specific to this machine / user / directory (filled in when the working directory is built)
+    'host {HOST} up', 'connect to {IP} ok', 'user {USER} logged in', 'home {HOME}/notes', 'cwd: {CWD}/f.txt', '{USER}@{HOST}:{CWD}$',
+    '{IP}', '{HOME}',
     # log lines stamped long ago: nothing about them is specific to the time of generation
     '2019-03-04 12:00:01 processed seventeen records', '1999-12-31 23:59:59 rollover ok', '04/03/2009 08:15:00 job done',
     '15 Jan 1999 10:00:00 start', 'finished at 2001-09-09 01:46:40 exactly',
@@ -29,6 +32,28 @@ TEXT_POOL = [
 
 OLD_STAMPED = ['2019-03-04 12:00:01 processed seventeen records', '1999-12-31 23:59:59 rollover ok', '04/03/2009 08:15:00 job done',
                '15 Jan 1999 10:00:00 start', 'finished at 2001-09-09 01:46:40 exactly']
+
+
+_TOKENS = None
+
+
+def subst(text, d):
+    """fill the machine-specific placeholders of a generated text in (cases stay machine-independent)"""
+    global _TOKENS
+    if '{' not in text:
+        return text
+    if _TOKENS is None:
+        import getpass
+        import socket
+        host = socket.gethostname()
+        try:
+            ip = socket.gethostbyname(host)
+        except Exception:   # noqa
+            ip = '127.0.0.1'
+        _TOKENS = {'{HOST}': host, '{IP}': ip, '{USER}': getpass.getuser(), '{HOME}': os.path.expanduser('~')}
+    for k, v in _TOKENS.items():
+        text = text.replace(k, v)
+    return text.replace('{CWD}', os.path.abspath(d))
 
 
 def sh_quote(s):
@@ -59,8 +84,12 @@ def gen_case(rng):
             content = gen_text(rng)
             if rng.random() < 0.1:
                 content = content.replace('\n', '\r\n')
+            if rng.random() < 0.08:
+                # a long report: more than 8 KiB of ASCII rows, the only non-ASCII text near the end
+                content = ''.join('row %04d,%s,ok\n' % (i, 'x' * 10) for i in range(rng.choice([400, 700]))) + \
+                          rng.choice(['total: 12 \u20ac\n', 'na\u00efve caf\u00e9\n', '\u65e5\u672c\n'])
         else:
-            content = bytes(rng.randrange(256) for _ in range(rng.choice([0, 1, 8, 64]))).hex()
+            content = bytes(rng.randrange(256) for _ in range(rng.choice([0, 1, 8, 64, 4096, 8192]))).hex()
         files.append({'name': name, 'kind': kind, 'how': how, 'content': content})
     if files and rng.random() < 0.2:
         # a second output with the same base name in another directory (reference copies collide)
@@ -118,14 +147,14 @@ def build_dir(case, d):
     """the command's inputs (in_*), pre-existing bystander files, and the command line"""
     os.makedirs(d, exist_ok=True)
     with open(os.path.join(d, 'in_out'), 'w', encoding='utf-8', newline='') as f:
-        f.write(case['stdout'])
+        f.write(subst(case['stdout'], d))
     with open(os.path.join(d, 'in_err'), 'w', encoding='utf-8', newline='') as f:
-        f.write(case['stderr'])
+        f.write(subst(case['stderr'], d))
     with open(os.path.join(d, 'in_status'), 'w') as f:
         f.write(str(case['status']))
     parts = []
     if case.get('cmd_style') == 'printf' and '\x00' not in case['stdout']:
-        parts.append('printf %s ' + sh_quote(case['stdout']))
+        parts.append('printf %s ' + sh_quote(subst(case['stdout'], d)))
     else:
         parts.append('cat in_out')
     parts.append('cat in_err >&2')
@@ -133,7 +162,7 @@ def build_dir(case, d):
     for fi, fl in enumerate(case['files']):
         src = src_of(fl, fi)
         mode = 'wb'
-        data = fl['content'].encode('utf-8') if fl['kind'] == 'text' else bytes.fromhex(fl['content'])
+        data = subst(fl['content'], d).encode('utf-8') if fl['kind'] == 'text' else bytes.fromhex(fl['content'])
         with open(os.path.join(d, src), mode) as f:
             f.write(data)
         target = target_of(fl, os.path.basename(d))
